@@ -161,7 +161,8 @@ def seg_bytes(pool, level, segs):
 
 
 class Lab:
-    def __init__(self, prop: str, case_id: int, parts: tuple, max_points: int):
+    def __init__(self, prop: str, case_id: int, parts: tuple, max_points: int, focus: str = ''):
+        self.focus = focus
         self.prop = prop
         self.case_id = case_id
         self.parts = parts
@@ -176,8 +177,10 @@ class Lab:
 
     # ------------------------------------------------------------------
     def run(self):
-        rng = common.rng_for(self.prop, 'lab', self.case_id)
+        rng = common.rng_for(self.prop, 'lab' + self.focus, self.case_id)
         cfg = store.default_cfg(rng, 0.7)
+        if self.focus == 'import':
+            cfg.target = rng.choice([1, 40, 150, 600])
         from .content import Pool  # pylint: disable=import-outside-toplevel
 
         pool = Pool(rng, 8, rng.choice(['tiny', 'small']), level=cfg.level, fixed=[b''] if rng.random() < 0.5 else None)
@@ -186,7 +189,7 @@ class Lab:
         drv = common.Driver()
         runner = None
         try:
-            want_import = rng.random() < 0.3
+            want_import = rng.random() < 0.3 or self.focus == 'import'
             cfgs = {'a': cfg}
             if want_import:
                 cfgs['b'] = store.default_cfg(rng, 0.5)
@@ -206,15 +209,21 @@ class Lab:
             op['on'] = 'a'
             if want_import:
                 srcc = runner.conts['b']
+                # make sure the source holds enough objects for an import that flushes its cache several times
+                more = [c_ for c_ in rng.sample(range(len(pool)), rng.randint(3, len(pool))) if c_ not in srcc.expected]
+                if more:
+                    runner.apply({'op': 'addPacked', 'on': 'b', 'cs': more, 'compress': rng.random() < 0.5, 'no_holes': False,
+                                  'read_twice': False, 'via': 'bytes', 'short': 64})
                 have = sorted(srcc.expected)
                 dest_rows = {runner.conts['a'].cid(r[1]) for r in runner.conts['a'].raw().rows}
                 same = srcc.cfg.hash_type == cfg.hash_type
                 cand = [x for x in have if same or x not in dest_rows]
                 if cand:
-                    ks = rng.sample(cand, min(len(cand), rng.randint(1, 5)))
+                    ks = rng.sample(cand, min(len(cand), rng.randint(1, 8)))
                     sizes = sorted(pool.size(x) for x in ks)
+                    # budgets: everything streamed one by one / about two or three cache flushes / one single flush
                     op = {'op': 'import', 'on': 'a', 'src': 'b', 'ks': ks, 'compress': rng.random() < 0.5, 'iter': 'list', 'callback': False,
-                          'budget': rng.choice([1, sizes[len(sizes) // 2] + 1, 104857600])}
+                          'budget': rng.choice([1, sizes[len(sizes) // 2] + 1, sizes[-1] + 1, sum(sizes) // 2 + 1, sum(sizes) // 3 + 1, 104857600])}
             if op['op'] in ('addPacked', 'import') and 'power' not in self.parts and rng.random() < 0.5:
                 op['do_fsync'] = False
                 if op['op'] == 'addPacked' and rng.random() < 0.7:
@@ -348,12 +357,14 @@ class Lab:
 
         for k in points:
             if 'crash' in self.parts or 'power' in self.parts:
-                self._crash_point(runner, rc, cfg, pool, scratch, op, args, k, events, keep, univ, model_prefix, kind)
+                # once the operation has returned (k == n) everything it stored must survive as well
+                keep_k = sorted(expected_after) if k >= n and kind != 'delete' else keep
+                self._crash_point(runner, rc, cfg, pool, scratch, op, args, k, events, keep_k, univ, model_prefix, kind)
             if 'fault' in self.parts and k < n:
                 self._fault_point(runner, rc, cfg, pool, scratch, op, args, k, events, keep, univ, model_prefix, kind, expected_after)
 
     def _replay(self, op, k=None, what=None):
-        return {'kind': 'lab', 'prop': self.prop, 'case_id': self.case_id, 'parts': list(self.parts), 'op': op, 'point': k, 'what': what,
+        return {'kind': 'lab', 'prop': self.prop, 'case_id': self.case_id, 'parts': list(self.parts), 'focus': self.focus, 'op': op, 'point': k, 'what': what,
                 'seed': common.seed()}
 
     # ------------------------------------------------------------------ oracle on a folder left behind
@@ -517,8 +528,8 @@ class Lab:
 
 
 def run_lab(args):
-    prop, case_id, parts, max_points = args
-    lab = Lab(prop, case_id, parts, max_points)
+    prop, case_id, parts, max_points = args[:4]
+    lab = Lab(prop, case_id, parts, max_points, args[4] if len(args) > 4 else '')
     try:
         lab.run()
     except common.Infra as exc:
